@@ -295,8 +295,149 @@ def native_judge(w, rep):
     return res != (f'Some({before[k][0]})' if live else 'None')
 
 
+# ------------------------------------------------------------------ U1: rollback applies the inverse of every undo entry, newest first
+# RelationalEngine::rollback with apply_undo_entry from MIR; the transaction manager, the slab and the four index maintenance
+# functions are stubs that record their calls (and succeed).  Decided for undo logs of 1..2 entries of every kind with 0..1 index
+# entries / index changes each and symbolic tables, row ids and values: the recorded calls are exactly the inverse operations of the
+# log read backwards, then the locks are released and the transaction is gone.
+from mirsym.models import ok as _ok_, err as _err_, deref as _deref
+ck.declare('U1_rollback_inverts_the_undo_log', 'rollback(tx) with an undo log of 1..2 entries (InsertedRow / UpdatedRow / DeletedRow, 0..1 index entries or changes each), contents symbolic',
+           'the slab and index calls are exactly: for each entry, newest first - InsertedRow: delete the row, remove its index entries (hash and ordered); UpdatedRow: restore the old values, '
+           'per change remove the new and add the old value (hash and ordered); DeletedRow: restore the row, add its index entries (hash and ordered); then locks released, phase Aborted, transaction removed; Ok')
+UE = {n: P.variant_index('UndoEntry', n) for n in ('InsertedRow', 'UpdatedRow', 'DeletedRow')}
+
+
+def undo_variant_fields():
+    """field order of UndoEntry's struct-like variants, read from the current source (declaration order = MIR field index)"""
+    import re as _re
+    src = open(os.path.join(REPO, 'relational_engine/src/transaction.rs')).read()
+    body = src[src.index('enum UndoEntry {'):]
+    out = {}
+    for m_ in _re.finditer(r'^    (\w+) \{\n(.*?)^    \},', body[:body.index('\n}\n')], _re.S | _re.M):
+        out[m_.group(1)] = _re.findall(r'^        (\w+):', m_.group(2), _re.M)
+    return out
+
+
+UVF = undo_variant_fields()
+
+
+def rec(kind, ret):
+    def f(c):
+        c.st.notes.append((kind, tuple(c.args[1:])))
+        return ret
+    return f
+
+
+u1_saved = dict(ex.extra_models)
+ex.extra_models.update({
+    'TransactionManager::is_active': lambda c: z3.BoolVal(True), 'TransactionManager::set_phase': rec('set_phase', UNIT),
+    'TransactionManager::get_undo_log': lambda c: some(c.st.env['undo_log'], 'Option<Vec<UndoEntry>>'),
+    'TransactionManager::release_locks': rec('release_locks', UNIT), 'TransactionManager::remove': rec('remove_tx', UNIT),
+    'RelationalEngine::slab': lambda c: ref(Struct('RelationalSlab', {}, lazy='SLAB')),
+    'RelationalSlab::delete': rec('slab_delete', _ok_(z3.BoolVal(True), 'Result<bool, RelationalError>')),
+    'RelationalSlab::restore_row': rec('slab_restore_row', _ok_(UNIT, 'Result<(), RelationalError>')),
+    'RelationalSlab::restore_deleted_row': rec('slab_restore_deleted', _ok_(UNIT, 'Result<(), RelationalError>')),
+    'RelationalEngine::index_remove': rec('index_remove', _ok_(UNIT, 'Result<(), RelationalError>')), 'RelationalEngine::index_add': rec('index_add', _ok_(UNIT, 'Result<(), RelationalError>')),
+    'RelationalEngine::btree_index_remove': rec('btree_remove', _ok_(UNIT, 'Result<(), RelationalError>')), 'RelationalEngine::btree_index_add': rec('btree_add', _ok_(UNIT, 'Result<(), RelationalError>')),
+})
+
+
+def mk_entry(st, kind, i, nidx):
+    tbl = Str(z3.BitVec(f'u{i}.table', 64))
+    srow = Int(z3.BitVec(f'u{i}.slab_row', 64), False)
+    row = Int(z3.BitVec(f'u{i}.row', 64), False)
+    col = lambda j: Str(z3.BitVec(f'u{i}.col{j}', 64))
+    val = lambda j, t: st.fresh('Value', f'u{i}.{t}{j}')
+    olds = Seq('SlabColumnValue', [st.fresh('ColumnValue', f'u{i}.old0')])
+    fld = lambda name: (kind, UVF[kind].index(name))
+    fields = {fld('table'): tbl, fld('slab_row_id'): srow, fld('row_id'): row}
+    exp = []
+    if kind == 'InsertedRow':
+        ies = [Struct('(String, Value)', {0: col(j), 1: val(j, 'v')}) for j in range(nidx)]
+        fields[fld('index_entries')] = Seq('(String, Value)', ies)
+        exp.append(('slab_delete', [tbl, srow]))
+        for e in ies:
+            exp += [('index_remove', [tbl, e.fields[0], e.fields[1], row]), ('btree_remove', [tbl, e.fields[0], e.fields[1], row])]
+    elif kind == 'UpdatedRow':
+        chs = [Struct('IndexChange', {P.field('IndexChange', 'column'): col(j), P.field('IndexChange', 'old_value'): val(j, 'old'), P.field('IndexChange', 'new_value'): val(j, 'new')}) for j in range(nidx)]
+        fields[fld('old_values')] = olds
+        fields[fld('index_changes')] = Seq('IndexChange', chs)
+        exp.append(('slab_restore_row', [tbl, srow, olds]))
+        for ch in chs:
+            c_, o_, n_ = (ch.fields[P.field('IndexChange', x)] for x in ('column', 'old_value', 'new_value'))
+            exp += [('index_remove', [tbl, c_, n_, row]), ('index_add', [tbl, c_, o_, row]), ('btree_remove', [tbl, c_, n_, row]), ('btree_add', [tbl, c_, o_, row])]
+    else:
+        ies = [Struct('(String, Value)', {0: col(j), 1: val(j, 'v')}) for j in range(nidx)]
+        fields[fld('old_values')] = olds
+        fields[fld('index_entries')] = Seq('(String, Value)', ies)
+        exp.append(('slab_restore_deleted', [tbl, srow, olds]))
+        for e in ies:
+            exp += [('index_add', [tbl, e.fields[0], e.fields[1], row]), ('btree_add', [tbl, e.fields[0], e.fields[1], row])]
+    return Enum('UndoEntry', UE[kind], fields, variant=kind), exp
+
+
+def same_arg(st, got, want):
+    """z3: a recorded argument denotes the expected object"""
+    g = _deref(st, got) if isinstance(got, Ptr) else got
+    w_ = _deref(st, want) if isinstance(want, Ptr) else want
+    if isinstance(g, Str) and isinstance(w_, Str):
+        return g.id == w_.id
+    if isinstance(g, Int) and isinstance(w_, Int):
+        return g.v == w_.v
+    return z3.BoolVal((getattr(g, 'lazy', None) is not None and getattr(g, 'lazy', None) == getattr(w_, 'lazy', None)) or g is w_)
+
+
+undone = 0
+KINDS = ('InsertedRow', 'UpdatedRow', 'DeletedRow')
+shapes = [((k, n),) for k in KINDS for n in (0, 1)] + [((a, 1), (b, 0 if T == 'quick' else 1)) for a in KINDS for b in KINDS]
+try:
+    for shape in shapes:
+        st = ex.new_state()
+        entries, expected = [], []
+        for i, (k, n) in enumerate(shape):
+            e, exp = mk_entry(st, k, i, n)
+            entries.append(e)
+            expected.append(exp)
+        st.env['undo_log'] = Seq('UndoEntry', entries)
+        want = [x for exp in reversed(expected) for x in exp]
+        eng = Struct('RelationalEngine', {}, lazy='ENG')
+        st.frames = []
+        ex.call(st, 'RelationalEngine::rollback', [ref(eng), Int(z3.BitVec('tx', 64), False)])
+        res = ex.run(st)
+        ck.note_path_problem(res, f'rollback {shape}')
+        for r in res:
+            wit = lambda m, shape=shape: {'undo': [[k, n] for (k, n) in shape]}
+            if r.status == 'panic':
+                ck.require(ex, 'U1_rollback_inverts_the_undo_log', r.pc, None, z3.BoolVal(False), wit, lambda m, w: 'rollback-panic')
+                continue
+            if r.status != 'return':
+                continue
+            undone += 1
+            calls = [x for x in r.st.notes if x[0] in ('slab_delete', 'slab_restore_row', 'slab_restore_deleted', 'index_remove', 'index_add', 'btree_remove', 'btree_add')]
+            tail = [x[0] for x in r.st.notes if x[0] in ('release_locks', 'set_phase', 'remove_tx')]
+            cs = [z3.BoolVal(len(calls) == len(want) and [c_[0] for c_ in calls] == [w_[0] for w_ in want]), z3.BoolVal(r.retval.variant == 'Ok'),
+                  z3.BoolVal('release_locks' in tail and 'remove_tx' in tail)]
+            if len(calls) == len(want):
+                for (ck_, cargs), (wk_, wargs) in zip(calls, want):
+                    if ck_ == wk_ and len(cargs) == len(wargs):
+                        cs += [same_arg(r.st, g_, w_) for g_, w_ in zip(cargs, wargs)]
+                    else:
+                        cs.append(z3.BoolVal(False))
+            ck.require(ex, 'U1_rollback_inverts_the_undo_log', r.pc, None, z3.And(cs), wit, lambda m, w: 'rollback-does-not-invert')
+finally:
+    ex.extra_models.clear()
+    ex.extra_models.update(u1_saved)
+if undone == 0:
+    ck.inconclusive.append('U1 vacuous: rollback never returned')
+ck.functions += ['RelationalEngine::rollback', 'RelationalEngine::apply_undo_entry']
+
 for v in ck.violations:
     w = v['witness']
+    if 'undo' in w:
+        rep = Replay.call({'op': 'relational_rollback', 'undo': w['undo']})
+        v['native'] = rep
+        v['replayed'] = rep.get('violates')
+        continue
     if w.get('clock'):
         c0 = w['clock'][0]
         variants = [[(c0 - l['acquired'] if c0 >= l['acquired'] else 0) > l['timeout'] for l in w['table']['locks']]]
